@@ -16,7 +16,15 @@
 //   ret <v>                      value returned by runAllTestsMain
 //   propagated <std|other>       rethrow mode: the exception left runAllTestsMain
 //   final <depth> <cur>
+//   u <hex>                      `composite` runs (-ojunit -v with the JUnit writer replaced by a second recording console
+//                                output): every string output ONE of the CompositeTestOutput received, in order, after `final`
+//
+// `env <eclipse|vs|detect>`: TestOutput::setWorkingEnvironment before the run (format of the failure location).
+// Real-I/O sub-mode (`realio` before `run`): the program is run by the real CommandLineTestRunner in a grand-child whose
+// stdout is a fully buffered pipe, with the real ConsoleTestOutput and the platform's fputs/fflush (no seam, no observation
+// lines, clock fixed at 0); observed:   out <hex of the bytes that arrived on the pipe> / ret <v> / final <depth> -
 #include "common.h"
+#include <errno.h>
 #include <stdexcept>
 #include "CppUTest/TestHarness.h"
 #include "CppUTest/TestHarness_c.h"
@@ -133,16 +141,19 @@ void emit_words(const vh::Words& w) {
 
 int depth() { return cpputest_verif_jmp_buf_index(); }
 
+bool g_quiet = false;                        // real-I/O sub-mode: no observation lines on stdout
+std::vector<std::string>* g_channel_one = 0; // composite runs: what output one received
+
 // The interpreter holds no object with a destructor while a check can fail (a longjmp leaves
 // through this frame).
 void interpret(const TestDef* d, int ph) {
-    vh::emit("enter %s %d", PHASE[ph], depth());
+    if (!g_quiet) vh::emit("enter %s %d", PHASE[ph], depth());
     const std::vector<St>& v = d->ph[ph];
     for (size_t i = 0; i < v.size(); i++) {
         const St& s = v[i];
         const char* f = s.file < 0 ? d->file : FILES[s.file & 3];
         switch (s.kind) {
-        case MARK: vh::emit("mark %s %d %d", PHASE[ph], s.n, depth()); break;
+        case MARK: if (!g_quiet) vh::emit("mark %s %d %d", PHASE[ph], s.n, depth()); break;
         case PASS: CHECK(true); break;
         case PASSC: CHECK_C(1); break;
         case FAILCPP: FAIL_LOCATION("failcpp", f, s.line); break;
@@ -200,11 +211,11 @@ class RecordingPlugin : public TestPlugin {
 public:
     explicit RecordingPlugin(const PluginDef* d) : TestPlugin(d->name.c_str()), d_(d) {}
     void preTestAction(UtestShell& test, TestResult& result) CPPUTEST_OVERRIDE {
-        vh::emit("plug %s pre %d", d_->name.c_str(), depth());
+        if (!g_quiet) vh::emit("plug %s pre %d", d_->name.c_str(), depth());
         report(d_->pre, "pre-error", test, result);
     }
     void postTestAction(UtestShell& test, TestResult& result) CPPUTEST_OVERRIDE {
-        vh::emit("plug %s post %d", d_->name.c_str(), depth());
+        if (!g_quiet) vh::emit("plug %s post %d", d_->name.c_str(), depth());
         report(d_->post, "post-error", test, result);
     }
 private:
@@ -241,11 +252,22 @@ private:
     const UtestShell* cur_;
 };
 
+// stands in for the JUnit writer as output ONE of the CompositeTestOutput: a console output that records
+class ChannelOneOutput : public ConsoleTestOutput {
+public:
+    void printBuffer(const char* s) CPPUTEST_OVERRIDE { if (g_channel_one) g_channel_one->push_back(s); }
+    void flush() CPPUTEST_OVERRIDE {}
+};
+
 class Runner : public CommandLineTestRunner {
 public:
     Runner(int ac, const char* const* av, TestRegistry* r) : CommandLineTestRunner(ac, av, r) {}
 protected:
-    TestOutput* createConsoleOutput() CPPUTEST_OVERRIDE { return new ObservingOutput; }
+    TestOutput* createConsoleOutput() CPPUTEST_OVERRIDE {
+        if (g_quiet) return new ConsoleTestOutput;       // the real thing, on the real stdout
+        return new ObservingOutput;
+    }
+    TestOutput* createJUnitOutput(const SimpleString&) CPPUTEST_OVERRIDE { return new ChannelOneOutput; }
 };
 
 // ---- seams
@@ -255,6 +277,7 @@ static void seam_flush(void) {}
 // scripted clock: reading i = base + step * i + offs[i % n]
 static unsigned long g_clock_base = 0, g_clock_step = 0, g_clock_calls = 0;
 static unsigned long g_clock_offs[8] = { 0 }; static unsigned g_clock_n = 1;
+static unsigned long zero_time(void) { return 0; }
 static unsigned long seam_time(void) {
     unsigned long v = g_clock_base + g_clock_step * g_clock_calls + g_clock_offs[g_clock_calls % g_clock_n];
     g_clock_calls++;
@@ -281,11 +304,13 @@ int file_index(const std::string& w) {      // "t" = the test's file, "0".."3" =
 struct Program {
     std::string rep;            // none | bare | a<N> | s<N>
     int verbosity;              // 0, 1 (-v), 2 (-vv), 3 (-v -vv)
-    bool runIgnored, color, rethrow, separate, haveCfg;
+    bool runIgnored, color, rethrow, separate, haveCfg, composite, realio;
+    std::string env;            // eclipse | vs | detect
     std::vector<std::pair<std::string, std::string> > filters;
     std::vector<PluginDef*> plugins;
     std::vector<TestDef*> tests;
-    Program() : rep("none"), verbosity(0), runIgnored(false), color(false), rethrow(false), separate(false), haveCfg(false) {}
+    Program() : rep("none"), verbosity(0), runIgnored(false), color(false), rethrow(false), separate(false), haveCfg(false),
+                composite(false), realio(false), env("detect") {}
 };
 
 TestDef* find_test(Program& p, const std::string& label) {
@@ -337,9 +362,10 @@ bool parse_stmt(const vh::Words& w, size_t at, St& s) {
     return false;
 }
 
-void run_program(Program& p) {
+int run_program(Program& p) {
     std::vector<std::string> args;
     args.push_back("h_c01");
+    if (p.composite) args.push_back("-ojunit");   // with -v / -vv: CompositeTestOutput(JUnit stand-in, console)
     if (!p.rethrow) args.push_back("-e");         // rethrow mode off unless the case asks for it
     if (p.verbosity & 1) args.push_back("-v");
     if (p.verbosity & 2) args.push_back("-vv");
@@ -369,6 +395,10 @@ void run_program(Program& p) {
     }
     int ret = 0;
     g_clock_calls = 0;
+    std::vector<std::string> channel_one;
+    g_channel_one = &channel_one;
+    TestOutput::setWorkingEnvironment(p.env == "vs" ? TestOutput::visualStudio : p.env == "eclipse" ? TestOutput::eclipse
+                                                                                                 : TestOutput::detectEnvironment);
 #if CPPUTEST_HAVE_EXCEPTIONS
     const char* propagated = 0;
     try {
@@ -377,21 +407,74 @@ void run_program(Program& p) {
     }
     catch (const std::exception&) { propagated = "std"; }
     catch (...) { propagated = "other"; }
-    if (propagated) { vh::emit("propagated %s", propagated); g_process_dirty = true; }
-    else vh::emit("ret %d", ret);
+    if (propagated) { if (!g_quiet) vh::emit("propagated %s", propagated); g_process_dirty = true; ret = -1; }
+    else if (!g_quiet) vh::emit("ret %d", ret);
 #else
     {
         Runner runner((int) av.size(), &av[0], &reg);
         ret = runner.runAllTestsMain();
     }
-    vh::emit("ret %d", ret);
+    if (!g_quiet) vh::emit("ret %d", ret);
 #endif
-    vh::emit("final %d %s", depth(), current_name().c_str());
+    TestOutput::setWorkingEnvironment(TestOutput::detectEnvironment);
+    g_channel_one = 0;
+    if (!g_quiet) {
+        vh::emit("final %d %s", depth(), current_name().c_str());
+        if (p.composite)
+            for (size_t i = 0; i < channel_one.size(); i++) vh::emit("u %s", vh::hex(channel_one[i]).c_str());
+    }
     for (size_t i = 0; i < plugins.size(); i++) delete plugins[i];
     for (size_t i = 0; i < shells.size(); i++) delete shells[i];
+    return ret;
+}
+
+void (*g_real_fputs)(const char*, PlatformSpecificFile) = 0;
+void (*g_real_flush)() = 0;
+
+std::string read_all(int fd) {
+    std::string data; char buf[65536]; ssize_t n;
+    while ((n = read(fd, buf, sizeof buf)) > 0 || (n < 0 && errno == EINTR)) if (n > 0) data.append(buf, (size_t) n);
+    return data;
+}
+
+// the program through the real runner on the real stdout (a fully buffered pipe) in a process of its own
+void run_real_io(Program& p) {
+    fflush(stdout); fflush(stderr);
+    int fd[2], rfd[2];
+    if (pipe(fd) != 0 || pipe(rfd) != 0) { vh::emit("crash realio-child no-pipe"); return; }
+    pid_t pid = fork();
+    if (pid == 0) {
+        alarm(40);
+        close(fd[0]); close(rfd[0]);
+        dup2(fd[1], 1);
+        close(fd[1]);
+        setvbuf(stdout, 0, _IOFBF, 0);          // what stdout is when it goes to a pipe or a file
+        PlatformSpecificFPuts = g_real_fputs;
+        PlatformSpecificFlush = g_real_flush;
+        GetPlatformSpecificTimeInMillis = zero_time;
+        g_quiet = true;
+        int ret = run_program(p);
+        fflush(stdout);
+        char buf[96];
+        int n = snprintf(buf, sizeof buf, "%d %d %s", ret, depth(), current_name().c_str());
+        if (write(rfd[1], buf, (size_t) n) < 0) _exit(3);
+        _exit(0);
+    }
+    close(fd[1]); close(rfd[1]);
+    std::string data = read_all(fd[0]);
+    std::string res = read_all(rfd[0]);
+    close(fd[0]); close(rfd[0]);
+    int st = 0;
+    while (waitpid(pid, &st, 0) < 0 && errno == EINTR) { }
+    vh::emit("out %s", vh::hex(data).c_str());
+    vh::Words w = vh::split(res);
+    if (w.size() == 3) { vh::emit("ret %s", w[0].c_str()); vh::emit("final %s %s", w[1].c_str(), w[2].c_str()); }
+    if (WIFSIGNALED(st)) vh::emit("crash realio-child signal %d", WTERMSIG(st));
+    else if (WIFEXITED(st) && WEXITSTATUS(st) != 0) vh::emit("crash realio-child exit %d", WEXITSTATUS(st));
 }
 
 void run_case(const vh::Case& c) {
+    if (!g_real_fputs) { g_real_fputs = PlatformSpecificFPuts; g_real_flush = PlatformSpecificFlush; }
     PlatformSpecificFPuts = seam_fputs;
     PlatformSpecificFlush = seam_flush;
     GetPlatformSpecificTimeInMillis = seam_time;
@@ -464,9 +547,21 @@ void run_case(const vh::Case& c) {
             }
             else vh::emit("> skip");
         }
+        else if (op == "env" && w.size() == 2 && (w[1] == "eclipse" || w[1] == "vs" || w[1] == "detect")) {
+            p.env = w[1];
+            emit_words(w);
+        }
+        else if (op == "composite" && w.size() == 1 && p.haveCfg && !p.composite && !p.realio && p.verbosity != 0 && !p.separate && !p.rethrow) {
+            p.composite = true;         // -ojunit with -v / -vv: the runner builds a CompositeTestOutput
+            emit_words(w);
+        }
+        else if (op == "realio" && w.size() == 1 && p.haveCfg && !p.realio && !p.composite && !p.rethrow) {
+            p.realio = true;
+            emit_words(w);
+        }
         else if (op == "run" && w.size() == 1 && p.haveCfg && !g_process_dirty) {
             vh::emit_op("run");
-            run_program(p);
+            if (p.realio) run_real_io(p); else run_program(p);
         }
         else vh::emit("> skip");
     }
